@@ -15,7 +15,7 @@ from typing import Any, Callable, Optional
 
 from .. import common, fakes, lifecycle, loop as ctl
 
-ALPHABET = ['start', 'run', 'rac', 'rcw', 'reset - - - -', 'reset 7 - - -', 'close', 'sig kill', 'cmd', 'prompt', 'exit 5', 'exit -']
+ALPHABET = ['start', 'run', 'rac', 'rcw', 'reset - - - -', 'reset 7 - - -', 'close', 'sig kill', 'cmd', 'prompt', 'exit 5', 'exit -', 'pexit 5']
 LIFECYCLE = ('start', 'run', 'rac', 'rcw', 'reset', 'close')
 EDGES = {('created', 'initialized'), ('initialized', 'running'), ('running', 'finished'), ('initialized', 'initialized'),
          ('finished', 'initialized'), ('created', 'closed'), ('initialized', 'closed'), ('running', 'closed'), ('finished', 'closed')}
@@ -33,6 +33,12 @@ def gen_serial(chk: common.Check, exhaustive_len: int, nrand: int) -> list[tuple
         ['start', 'run', 'rac', 'prompt', 'exit 1'],
         ['start', 'rac', 'rac', 'prompt', 'exit 1', 'reset - - - -', 'run', 'prompt'],
     ]
+    # every (trigger, state) pair, reached by a canonical path: a transition added to or removed from CONFIG shows here
+    paths = {'created': [], 'initialized': ['start'], 'running': ['start', 'run'], 'finished': ['start', 'run', 'exit 5'],
+             'closed': ['start', 'close']}
+    for st, path in paths.items():
+        for trig in ['start', 'run', 'reset - - - -', 'close', 'rac']:
+            corpus.append(path + [trig, 'exit 5', 'run'])
     for ops in corpus:
         scen.append(((0, 1, False, False), ops))
     for L in range(1, exhaustive_len + 1):
@@ -65,7 +71,7 @@ def gen_serial(chk: common.Check, exhaustive_len: int, nrand: int) -> list[tuple
             elif r < 0.78:
                 ops.append('prompt')
             else:
-                ops.append(rng.choice(['exit 5', 'exit -', 'exit 0']))
+                ops.append(rng.choice(['exit 5', 'exit -', 'exit 0', 'pexit 3', 'pexit -']))
         if rng.random() < 0.8 and ops[0] != 'start':
             ops.insert(0, 'start')
         scen.append((init, ops))
@@ -221,9 +227,9 @@ def concurrent_trial(seed: int) -> dict:
                     await asyncio.sleep(0)
                 try:
                     await getattr(nl, c)()
-                    res.append((i, c, 'ok', nl.state))
+                    res.append((i, c, 'ok', nl.state, len(w.live())))
                 except Exception as e:  # noqa
-                    res.append((i, c, type(e).__name__, nl.state))
+                    res.append((i, c, type(e).__name__, nl.state, len(w.live())))
         ts = [asyncio.ensure_future(seq(i)) for i in range(ntasks)]
 
         async def env() -> None:
@@ -234,6 +240,8 @@ def concurrent_trial(seed: int) -> dict:
                         c.exit(None)
         te = asyncio.ensure_future(env())
         await asyncio.wait(ts + [te])
+        holder['end_state'] = nl.state
+        holder['end_live'] = len(w.live())
         for _ in range(3):
             for c in w.live():
                 c.exit(None)
@@ -249,7 +257,7 @@ def concurrent_trial(seed: int) -> dict:
     except (Exception, ctl.StepBudgetExceeded) as e:  # noqa
         err = f'{type(e).__name__}: {e}'
     return {'seed': seed, 'calls': calls, 'pre': pre, 'states': samples, 'published': pubs, 'results': res, 'error': err,
-            'max_live_children': live_max[0], 'child_alive_at_finished': alive_at_finished[0], 'schedule': chooser.trace}
+            'end_state': holder.get('end_state'), 'end_live': holder.get('end_live'), 'max_live_children': live_max[0], 'child_alive_at_finished': alive_at_finished[0], 'schedule': chooser.trace}
 
 
 def _conc_shard(seeds: list) -> list:
@@ -264,8 +272,16 @@ def run_concurrent(chk: common.Check, n: int) -> list[dict]:
 
 
 def finish(chk: common.Check, pid: str, oracle_fail: list, disagreements: list, what: str) -> None:
-    for ctx, msgs, sig in oracle_fail[:5]:
-        chk.violation(f'{pid} oracle: {msgs[0]}', {'scenario': ctx, 'oracle_messages': msgs}, signature=sig)
+    seen_sig: set = set()
+    nreal = 0
+    for ctx, msgs, sig in oracle_fail:
+        if sig is None:
+            if nreal < 5:
+                chk.violation(f'{pid} oracle: {msgs[0]}', {'scenario': ctx, 'oracle_messages': msgs})
+            nreal += 1
+        elif sig not in seen_sig:
+            seen_sig.add(sig)
+            chk.violation(f'{pid} oracle ({sig}): {msgs[0]}', {'scenario': ctx, 'oracle_messages': msgs}, signature=sig)
     broken = common.proof_broken(chk)
     broken += [n for n in chk.notes if 'model driver unusable' in n]
     if disagreements:
